@@ -41,7 +41,7 @@ type Engine struct {
 func (e *Engine) typeID(t types.Type) int {
 	e.mu.Lock()
 	defer e.mu.Unlock()
-	k := types.TypeString(t, nil)
+	k := canonType(types.TypeString(t, nil))
 	if id, ok := e.typeIDs[k]; ok {
 		return id
 	}
@@ -377,6 +377,8 @@ func (e *Engine) verifyFunc(fc *FuncContract) (res *FuncResult) {
 			c.assume(env.evalBool(r.Expr))
 		}
 		nreq := len(c.decls)
+		f.fspec = f.buildFrameSpec(f.specEnv(st, st, false), fc.Modifies, c.defaultHeap(0, nowHeap, "Int"))
+		f.loopBody = loopBodies(fn)
 		f.run(st, "true")
 		f.finish(nreq)
 		for k, v := range c.heapSorts {
@@ -428,9 +430,16 @@ func (f *Frame) finish(nreq int) {
 		}
 		f.curEnv = env
 		for i, en := range fc.Ensures {
-			g := env.evalBool(en.Expr)
 			f.curClause = en
-			f.oblige("post", fmt.Sprint(i), g, r.pos, en.Props, en.Text)
+			parts := splitConj(en.Expr)
+			for j, pe := range parts {
+				g := env.evalBool(pe)
+				label, text := fmt.Sprint(i), en.Text
+				if len(parts) > 1 {
+					label, text = fmt.Sprintf("%d.%d", i, j), pe.String()
+				}
+				f.oblige("post", label, g, r.pos, en.Props, text)
+			}
 			f.curClause = nil
 		}
 		f.curEnv = nil
@@ -445,92 +454,9 @@ func (f *Frame) finish(nreq int) {
 }
 
 func (f *Frame) frameCheck(r retInfo, env *SpecEnv) {
-	c := f.c
-	fc := f.fc
-	allowed := map[string]bool{}
-	pre := f.specEnv(f.entrySt, f.entrySt, false)
-	// expected final heaps: the entry heaps with only the listed locations replaced by their final values
-	expect := f.entrySt.clone()
-	exact := map[string]bool{}
-	var allowedPrefix []string
-	for _, m := range fc.Modifies {
-		lv := pre.lvalue(m)
-		if lv.globalsOf != nil {
-			allowedPrefix = append(allowedPrefix, "G_"+sanitize(lv.globalsOf.Pkg.Path()+"."))
-			continue
-		}
-		n := c.heapNameOfPath(lv.path)
-		if n == "" {
-			continue
-		}
-		if strings.HasSuffix(n, ".*") {
-			u := lv.path.T.Underlying().(*types.Struct)
-			for i := 0; i < u.NumFields(); i++ {
-				fn, _ := c.heapNameField(lv.path.T, u, i)
-				allowed[fn] = true
-				exact[fn] = true
-			}
-			c.store(expect, lv.path, c.load(r.st, lv.path))
-			continue
-		}
-		allowed[n] = true
-		if lv.whole {
-			// whole backing array of a slice: replace the array
-			hn, hs := c.heapNameArr(lv.elemT)
-			fin := fmt.Sprintf("(select %s (sbase %s))", c.heap(r.st, hn, hs), lv.slice)
-			expect.heaps[hn] = fmt.Sprintf("(store %s (sbase %s) %s)", c.heap(expect, hn, hs), lv.slice, fin)
-			exact[n] = true
-			continue
-		}
-		if _, isView := f.viewFieldIn(lv.path, r.st); isView {
-			continue
-		}
-		c.store(expect, lv.path, c.load(r.st, lv.path))
-		exact[n] = true
-	}
-	if r.st.hid == 0 {
-		for _, n := range sortedKeys(exact) {
-			if strings.HasPrefix(n, "G_") {
-				continue
-			}
-			t, ok := r.st.heaps[n]
-			if !ok || t == expect.heaps[n] {
-				continue
-			}
-			// objects allocated during the call may differ freely
-			g := fmt.Sprintf("(forall ((r!f Int)) (=> (alive0 r!f) (= (select %s r!f) (select %s r!f))))", t, expect.heaps[n])
-			f.oblige("frame", n, g, r.pos, nil, "only the locations listed in modifies change in heap "+n)
-		}
-	}
+	// individual writes are checked where they happen (frame.go); a call without any contract may write anything
 	if r.st.hid != 0 {
 		f.oblige("frame", "all", "false", r.pos, nil, "a call without contract may have modified anything; the function needs contracts on its callees")
-		return
-	}
-	for _, n := range sortedKeysS(r.st.heaps) {
-		if n == nowHeap {
-			continue
-		}
-		t := r.st.heaps[n]
-		def := c.defaultHeap(0, n, c.heapSorts[n])
-		if t == def || allowed[n] {
-			continue
-		}
-		okPrefix := false
-		for _, p := range allowedPrefix {
-			if strings.HasPrefix(n, p) {
-				okPrefix = true
-			}
-		}
-		if okPrefix {
-			continue
-		}
-		if strings.HasPrefix(n, "G_") {
-			f.oblige("frame", n, fmt.Sprintf("(= %s %s)", t, def), r.pos, nil, "global "+n+" modified but not in modifies")
-			continue
-		}
-		// only objects allocated during the call may differ
-		g := fmt.Sprintf("(forall ((r!f Int)) (=> (alive0 r!f) (= (select %s r!f) (select %s r!f))))", t, def)
-		f.oblige("frame", n, g, r.pos, nil, "heap "+n+" modified at a pre-existing object but not listed in modifies")
 	}
 }
 
@@ -541,4 +467,37 @@ func sortedKeysS(m map[string]string) []string {
 	}
 	sort.Strings(ks)
 	return ks
+}
+
+// canonType: byte/uint8 and rune/int32 are the same types.
+func canonType(s string) string {
+	r := strings.NewReplacer("[]byte", "[]uint8", "*byte", "*uint8", "]byte", "]uint8", "[]rune", "[]int32")
+	s = r.Replace(s)
+	if s == "byte" {
+		return "uint8"
+	}
+	if s == "rune" {
+		return "int32"
+	}
+	return s
+}
+
+// splitConj splits a contract clause into its top-level conjuncts (also under a
+// common implication premise: A ==> (B && C) gives A ==> B, A ==> C), so that
+// each becomes its own, smaller proof obligation.
+func splitConj(x SExpr) []SExpr {
+	switch n := x.(type) {
+	case *SBinary:
+		if n.Op == "&&" {
+			return append(splitConj(n.X), splitConj(n.Y)...)
+		}
+		if n.Op == "==>" {
+			var out []SExpr
+			for _, c := range splitConj(n.Y) {
+				out = append(out, &SBinary{"==>", n.X, c})
+			}
+			return out
+		}
+	}
+	return []SExpr{x}
 }
